@@ -177,7 +177,8 @@ def gen_ctr(rng, n, B=8, set_counter_always=False, stats=None, fams=("ctr128", "
             if mode == 0 and not set_counter_always:
                 if stats: stats.cls("default-counter")
             elif mode == 1:
-                L.append("%s.set_counter c NULL 0" % fam)
+                # a null counter means the all-zero counter whatever size accompanies it
+                L.append("%s.set_counter c NULL %d" % (fam, rng.choice([0, 1, bs // 2, bs - 1, bs])))
                 if stats: stats.cls("null-counter")
             elif mode == 2:
                 cl = rng.below(bs + 1)
@@ -209,6 +210,11 @@ def gen_ctr(rng, n, B=8, set_counter_always=False, stats=None, fams=("ctr128", "
             else:
                 for c in cut_sizes(rng, bs, B, total): D.append("%s.encrypt c %s" % (fam, hx(rng.bytes(c))))
             if stats: stats.cls("directed-carry")
+        # directed: null counter with a non-zero size (the stack is dirtied before every call by the driver)
+        for cl in ([1, bs] if n <= 8 else [1, 2, bs // 2, bs - 1, bs]):
+            D.append("%s.set_counter c NULL %d" % (fam, cl))
+            D.append("%s.encrypt c %s" % (fam, hx(rng.bytes(B * bs + 3))))
+            if stats: stats.cls("directed-null-counter")
         D.append("%s.cleanup c" % fam)
         scripts.append(("ctr-carry-%s" % fam, D))
     return scripts
